@@ -148,13 +148,14 @@ Definition poss_add_f (p : poss) : poss := mkPoss (can_t p) true.
 
 Definition can_repeat (hi : option N) : bool := match hi with Some h => 2 <=? h | None => true end.
 
-(* [stable t s ps e pe]: every tree wildcard of [t] is encoded for the position it has in every
-   expansion, when [t] is encoded with edges (s, e) and may really be first / last as [ps] / [pe]. *)
-Fixpoint stable (t : tok) (s : bool) (ps : poss) (e : bool) (pe : poss) {struct t} : bool :=
+(* [stable_gen strict t s ps e pe]: every tree wildcard of [t] is encoded for the position it has in every
+   expansion, when [t] is encoded with edges (s, e) and may really be first / last as [ps] / [pe]; with [strict],
+   moreover no rooted tree wildcard is encoded as "first, not last" (the form `[/].*[/]?` pinned by the suite). *)
+Fixpoint stable_gen (strict : bool) (t : tok) (s : bool) (ps : poss) (e : bool) (pe : poss) {struct t} : bool :=
   match t with
-  | TLeaf _ (LTree _) => poss_ok s ps && poss_ok e pe
+  | TLeaf _ (LTree root) => poss_ok s ps && poss_ok e pe && negb (strict && root && s && negb e)
   | TLeaf _ _ => true
-  | TAlt _ bs => forallb (fun b => stable b s ps e pe) bs
+  | TAlt _ bs => forallb (fun b => stable_gen strict b s ps e pe) bs
   | TCat _ ts =>
       (* [pre]: every element so far may be empty *)
       (fix go (ts : list tok) (first pre : bool) : bool :=
@@ -165,14 +166,17 @@ Fixpoint stable (t : tok) (s : bool) (ps : poss) (e : bool) (pe : poss) {struct 
              let post := forallb fnull ts' in
              let ps0 := if first then ps else mkPoss (can_t ps && pre) true in
              let pe0 := if last then pe else mkPoss (can_t pe && post) true in
-             stable t0 (s && first) ps0 (e && last) pe0 && go ts' false (pre && fnull t0)
+             stable_gen strict t0 (s && first) ps0 (e && last) pe0 && go ts' false (pre && fnull t0)
          end) ts true true
   | TRep _ b lo hi =>
       let again := can_repeat hi in
-      stable b s (if again then poss_add_f ps else ps) e (if again then poss_add_f pe else pe)
+      stable_gen strict b s (if again then poss_add_f ps else ps) e (if again then poss_add_f pe else pe)
   end.
 
+Definition stable := stable_gen false.
 Definition trees_stable (t : tok) : bool := stable t true (poss_of true) true (poss_of true).
+(* the class in which the encoder is proved to agree with the documented language *)
+Definition trees_exact (t : tok) : bool := stable_gen true t true (poss_of true) true (poss_of true).
 
 (* the tree wildcards of [t] with the edges the encoder gives them: (root, starting, ending) *)
 Fixpoint tree_ctxs (t : tok) (s e : bool) {struct t} : list (bool * bool * bool) :=
